@@ -79,7 +79,9 @@ def golden_section_search(f, a, b, tol=1e-5, verbose=False):
 	(a, b) = (min(a, b), max(a, b))
 	h = b - a
 	if h <= tol:
-		return (a, b)
+		# Interval is already within the tolerance: return its midpoint and the function value there.
+		x_star = (a + b) / 2
+		return x_star, f(x_star)
 
 	# Calculate required number of steps to achieve tolerance.
 	n = int(math.ceil(math.log(tol / h) / math.log(invphi)))
